@@ -19,6 +19,7 @@ func runC13(c *Ctx) {
 	c.Rule("C13-R1", "result canonicalised by a sort after the fan-in; MergeRanges sorts after map iteration", 3)
 	c.Rule("C13-R2", "all slice results consumed; cross-slice merge; slice error fails the query; slice cache key complete; ends expanded", 11)
 	c.Rule("C13-R3", "sort order keys on series identity and start", 2)
+	defer c13SeriesLabelsAreCanonical(c, "C13-R3")
 	defer c13DecodeTargetReset(c)
 	defer c13CancellationMarker(c)
 	defer checkSearchFlags(c, "C13-R2", "internal/promapi.AppendSampleToRanges", "internal/promapi.MergeRanges", "internal/promapi.SeriesTimeRanges.FindGaps")
